@@ -61,6 +61,7 @@ func checkC04(ctx *Ctx, r *Report) {
 	c04ConfigTypesValidated(ctx, r)
 	c04SharedNodes(ctx, r, g)
 	c04TemplateRecursion(ctx, r)
+	c20StrictHelper(ctx, r)
 }
 
 // ---------------------------------------------------------------------------
